@@ -80,7 +80,36 @@ def binary_tables(ctx):
                     calls = m["arms"][a[0]]["calls"]
                     tab[(l, r)] = not any(c.endswith("emit_error") for c in calls)
         out[op] = tab
+    for op in ops:
+        if out.get(op) is None:
+            out[op] = binary_table_by_evaluation(ce, op)
     return out
+
+
+def binary_table_by_evaluation(ce, op):
+    """The typing rule of one operator read from the compiled body instead of from the shape of a `match (l, r)`: the
+    checker is walked with the node kind, the operator and the two inferred types fixed; a cell is accepted when no walk
+    reports an error and rejected when every walk does.  (Used where the rule is not spelled as a match: named `matches!`
+    booleans, if-chains.)"""
+    tab = {}
+    for l in TYPES + [None]:
+        for r in TYPES + [None]:
+            known = {"expr": "Binary", "op": op}
+            for nm, v in (("l", l), ("r", r), ("_.0", l), ("_.1", r)):
+                known[nm] = "Some" if v else "None"
+                if v:
+                    known[nm + "@Some.0"] = v
+            paths = peval(ce, 0, known)
+            if not paths or any(p["end"] != "return" for p in paths):
+                return None
+            e = [any(ev[0] == "call" and ev[1].endswith("emit_error") for ev in p["events"]) for p in paths]
+            if all(e):
+                tab[(l, r)] = False
+            elif not any(e):
+                tab[(l, r)] = True
+            else:
+                return None
+    return tab
 
 
 def runtime_binary_capability(ctx):
@@ -925,7 +954,42 @@ def r9_return_types_are_inferred_in_the_function_s_own_scope(ctx):
     fam_calls = [(g, c) for g in fam for c in g.calls()]
     alls = [c for g, c in fam_calls if (c.callee or "").split("::")[-1] == "all"]
     weaker = [c for g, c in fam_calls if (c.callee or "").split("::")[-1] in ("any", "contains", "find", "position")]
-    if alls and not weaker:
+    # the same test spelled from the other side: `any(|t| t != first)` with Dynamic on its true outcome is `all(|t| t == first)`
+    # with Dynamic on its false outcome.  Decided from the quantifier, the polarity of its closure and the outcome that
+    # builds Dynamic.
+    def _polarity(c):
+        e = inf.deep(c.args[1]) if len(c.args) > 1 else None
+        m = re.search(r"(\{closure#\d+\})", str(e[1])) if isinstance(e, tuple) and e[0] == "agg" else None
+        clo = next((g for g in fam if m and g.id.endswith(m.group(1))), None)
+        if clo is None:
+            return None
+        cc = [x for x in clo.calls() if (x.callee or "").split("::")[-1] in ("eq", "ne")]
+        if len(cc) != 1 or len(list(clo.calls())) != 1 or any(clo.blocks[b]["t"]["k"] == "switch" for b in clo.live):
+            return None
+        pol = (cc[0].callee or "").split("::")[-1]
+        if cc[0].dest["l"] != 0:
+            # negated once before it is returned
+            nots = [st for b in sorted(clo.live) for st in clo.blocks[b]["s"] if st["lhs"]["l"] == 0 and st["rv"]["k"] == "un" and st["rv"].get("op") == "Not"]
+            if len(nots) != 1:
+                return None
+            pol = "ne" if pol == "eq" else "eq"
+        return pol
+    dyn_true = None
+    for b in sorted(inf.live):
+        for st in inf.blocks[b]["s"]:
+            if st["rv"]["k"] == "agg" and st["rv"].get("variant") == "Dynamic" and st["lhs"]["l"] == 0:
+                for S, al in inf.constraints(b):
+                    d = sh(ne(inf.deep(inf.blocks[S]["t"]["d"])))
+                    if d.startswith("any(") or d.startswith("all("):
+                        dyn_true = 0 not in al
+    quant = [c for g, c in fam_calls if g is inf and (c.callee or "").split("::")[-1] in ("all", "any")]
+    sound = False
+    if len(quant) == 1 and len(alls) + len(weaker) == 1 and dyn_true is not None:
+        q, pol = (quant[0].callee or "").split("::")[-1], _polarity(quant[0])
+        sound = (q == "all" and pol == "eq" and dyn_true is False) or (q == "any" and pol == "ne" and dyn_true is True)
+    if sound:
+        ctx.ok("return-type|all-agree", inf.where(quant[0].block), "a concrete type only when all return types agree (%s over `%s`, dynamic on its %s outcome)" % ((quant[0].callee or "").split("::")[-1], _polarity(quant[0]), "true" if dyn_true else "false"))
+    elif alls and not weaker:
         ctx.ok("return-type|all-agree", inf.where(alls[0].block), "a concrete type only when all return types agree")
     else:
         ctx.bad("return-type|not-all-agree|%s" % (weaker[0].callee.split("::")[-1] if weaker else "none"), inf.where((weaker or alls or [None])[0].block if (weaker or alls) else None), "the inferred return type is the first return's type as soon as %s return agrees with it, not when all do: a function that returns a number on one path and a string on another is typed by its first `return`, and uses that are right for the other type are rejected (`describe(5).len()`)" % ("some" if weaker else "no test says every"))
